@@ -57,7 +57,8 @@ type pktIn struct {
 	Cmd      *packet.CommandPacket `json:"cmd,omitempty"`
 }
 type caseIn struct {
-	Mode string  `json:"mode"` // "pk" | "raw"
+	Mode string  `json:"mode"` // "pk" | "raw" | "ws" (pk over a WebSocket adapter; Cuts = message lengths)
+	Side string  `json:"side"` // ws: server | client | transport
 	Pkts []pktIn `json:"pkts"`
 	Wire string  `json:"wire"`
 	Cuts []int   `json:"cuts"`
@@ -184,7 +185,7 @@ func runCase(raw json.RawMessage) interface{} {
 	out := &caseOut{PropOK: true}
 	var wire []byte
 	switch c.Mode {
-	case "pk":
+	case "pk", "ws":
 		var buf bytes.Buffer
 		sp := stream.NewStreamProcessor(bytes.NewReader(nil), &buf, context.Background())
 		type want struct {
@@ -236,7 +237,18 @@ func runCase(raw json.RawMessage) interface{} {
 		}
 		wire = append([]byte(nil), buf.Bytes()...)
 		sp.Close()
-		obsv, pkts := readAll(wire, c.Cuts, c.Big)
+		var obsv []obs
+		var pkts []*packet.TransferPacket
+		if c.Mode == "ws" {
+			r, err := runWS(c.Side, wire, c.Cuts)
+			if err != nil {
+				out.PropOK, out.PropMsg = false, err.Error()
+				r.obs = []obs{{Ok: false, N: -1, Err: err.Error()}}
+			}
+			obsv, pkts = r.obs, r.pkts
+		} else {
+			obsv, pkts = readAll(wire, c.Cuts, c.Big)
+		}
 		out.Obs = obsv
 		// the property itself, evaluated on the implementation's own outputs
 		if out.PropOK {
